@@ -2,7 +2,7 @@
    records, calls the extracted flatten_model, prints canonical dumps.  No property logic.
 
    argv[1] = case file, argv[2] (optional) = fuel (default 400), argv[3] (optional) = rounds (default 40); one case per line:
-        <fixes: 7 x 0/1 = kids late clash cndeep ref chain ids | "cur"> <export>
+        <fixes: 8 x 0/1 = kids late clash cndeep ref chain ids cycleguard | "cur"> <export>
      export := nlibs model{1 + nlibs} n0        (first model = the model given to flattenModel, then the library)
      model  := "M" name nunits units* ncomps comp* neqs eqv*
      units  := "U" name ("I" url lib ref | "D") ndefs (ref prefix exp log10mult)*
@@ -134,13 +134,13 @@ let dump_model m =
 
 let parse_fixes f =
   if f = "cur" then flat_current_fixes
-  else { fx_kids = f.[0] = '1'; fx_late = f.[1] = '1'; fx_clash = f.[2] = '1'; fx_cndeep = f.[3] = '1'; fx_ref = f.[4] = '1'; fx_chain = f.[5] = '1'; fx_ids = f.[6] = '1' }
+  else { fx_kids = f.[0] = '1'; fx_late = f.[1] = '1'; fx_clash = f.[2] = '1'; fx_cndeep = f.[3] = '1'; fx_ref = f.[4] = '1'; fx_chain = f.[5] = '1'; fx_ids = f.[6] = '1'; fx_cycle_guard = f.[7] = '1' }
 
 let () =
   if Sys.argv.(1) = "--fixes" then begin
     let c b = if b then "1" else "0" in
     let f = flat_current_fixes in
-    print_endline (c f.fx_kids ^ c f.fx_late ^ c f.fx_clash ^ c f.fx_cndeep ^ c f.fx_ref ^ c f.fx_chain ^ c f.fx_ids);
+    print_endline (c f.fx_kids ^ c f.fx_late ^ c f.fx_clash ^ c f.fx_cndeep ^ c f.fx_ref ^ c f.fx_chain ^ c f.fx_ids ^ c f.fx_cycle_guard);
     exit 0
   end;
   let ic = open_in Sys.argv.(1) in
